@@ -1849,6 +1849,11 @@ def assemble(repo, unit, cfg, opts=None):
                 asm.end_fn()
                 return
             try:
+                if mode == "verify" and fc and it.path in (opts.get("demote") or ()):
+                    # second run of the back end: Verus rejected the unit inside this function (its new shape does not fit
+                    # the overlay's hints, e.g. a renamed local): only its contract is emitted, the rest of the unit is
+                    # still verified, the function itself is a suspect for the directed search
+                    raise ExtractError("Verus rejected this function under the overlay (%s)" % opts["demote"][it.path][:160])
                 sigtoks, spec, body = rewrite_fn(it, fc, cfg, opts, ov)
             except (ExtractError, LexError, IndexError) as e:
                 if mode != "verify" or not fc:
